@@ -70,6 +70,7 @@ def sim_compute(
     info: RunInfo | None = None,
     pickle_b: bool = False,
     block_keys_of=None,
+    trace_p: float = 0.0,
 ):
     """Compute collections; returns tuple of results (like dask.compute).
 
@@ -111,6 +112,7 @@ def sim_compute(
                 always_pickle=always_pickle,
                 crash_after=crash_after,
                 max_crashes=max_crashes,
+                trace_p=trace_p,
             )
             try:
                 if extra:
